@@ -216,12 +216,13 @@ PackLookups(lk, mode) ==
 
 -----------------------------------------------------------------------------
 (* The loop.  pc: "attempt" -> ("overflowed" -> "attempt")* -> "done";  outcome: "none" "return" "raise" "crash" *)
-VARIABLES lookups, rstate, pc, cur, last, outcome, hbfailed
-rvars == <<lookups, rstate, pc, cur, last, outcome, hbfailed>>
+VARIABLES lookups, rstate, pc, cur, last, outcome, hbfailed,
+          attempts          \* number of passes through the try block so far
+rvars == <<lookups, rstate, pc, cur, last, outcome, hbfailed, attempts>>
 NoRec == [L |-> None, S |-> None, name |-> "", idx |-> None]
 
 RInit(lk) == /\ lookups = lk /\ rstate = (IF HBMode = "on" THEN "HB_FT" ELSE "PURE_FT")
-             /\ pc = "attempt" /\ cur = NoRec /\ last = NoRec /\ outcome = "none" /\ hbfailed = FALSE
+             /\ pc = "attempt" /\ cur = NoRec /\ last = NoRec /\ outcome = "none" /\ hbfailed = FALSE /\ attempts = 0
 
 (* one pass through the try block.  In HB_FT the repacker is a black box: it may succeed (Return) or fail,
    in which case the table interned with cross-extension sharing is packed by getAllData (mode "hbfb");
@@ -235,6 +236,7 @@ AttemptFT ==
             ELSE /\ rstate' = "HB_FT" /\ UNCHANGED <<pc, outcome, cur>>                   \* BackToHB
        ELSE IF p.res = "overflow" THEN /\ pc' = "overflowed" /\ cur' = p.rec /\ UNCHANGED <<rstate, outcome>>
        ELSE /\ pc' = "done" /\ outcome' = "crash" /\ UNCHANGED <<rstate, cur>>
+  /\ attempts' = attempts + 1
   /\ UNCHANGED <<lookups, last, hbfailed>>
 AttemptHB ==
   /\ pc = "attempt" /\ rstate = "HB_FT"
@@ -245,6 +247,7 @@ AttemptHB ==
              IF p.res = "ok" THEN /\ pc' = "done" /\ outcome' = (IF p.clause = "ok" THEN "return" ELSE "return-invalid") /\ UNCHANGED cur
              ELSE IF p.res = "overflow" THEN /\ pc' = "overflowed" /\ cur' = p.rec /\ UNCHANGED outcome
              ELSE /\ pc' = "done" /\ outcome' = "crash" /\ UNCHANGED cur
+  /\ attempts' = attempts + 1
   /\ UNCHANGED <<lookups, last, rstate>>
 
 (* the except block: tryResolveOverflow, then continue / fall back / re-raise *)
@@ -257,8 +260,9 @@ Resolve ==
           ELSE IF r.ok THEN /\ lookups' = r.lk /\ pc' = "attempt" /\ UNCHANGED <<rstate, outcome>>
           ELSE IF rstate = "HB_FT" THEN /\ rstate' = "FT_FALLBACK" /\ pc' = "attempt" /\ UNCHANGED <<lookups, outcome>>   \* FallBackToFT
           ELSE /\ pc' = "done" /\ outcome' = "raise" /\ UNCHANGED <<lookups, rstate>>                                    \* Raise
-  /\ UNCHANGED <<cur, hbfailed>>
-RNext == AttemptFT \/ AttemptHB \/ Resolve
+  /\ UNCHANGED <<cur, hbfailed, attempts>>
+Done == pc = "done" /\ UNCHANGED rvars                   \* compile has returned or raised
+RNext == AttemptFT \/ AttemptHB \/ Resolve \/ Done
 
 (* ---- properties ---- *)
 DenotationPreserved == [][lookups' # lookups => Denote(lookups') = Denote(lookups)]_rvars
@@ -270,4 +274,7 @@ RaiseOnlyWhenStuck ==
                        /\ PackLookups(lookups, "ft").res = "overflow"
 NoCrash == outcome # "crash"
 Terminates == <>(pc = "done")
+(* safety form used for model checking (no fairness needed): the loop is never blocked before it is done
+   (deadlock check) and it is done within B passes *)
+TerminatesWithin(B) == attempts <= B
 =============================================================================
